@@ -140,10 +140,8 @@ func (c *Ctx) callgraph() *callGraph {
 				} else if sc := cc.StaticCallee(); sc != nil {
 					add(unwrap(sc))
 				} else {
-					if s, ok := cc.Value.Type().Underlying().(*types.Signature); ok {
-						for _, t := range g.bySig[sigKey(s)] {
-							add(t)
-						}
+					for _, t := range g.funcValueTargets(cc.Value) {
+						add(t)
 					}
 				}
 			}
@@ -171,6 +169,56 @@ func (c *Ctx) callgraph() *callGraph {
 		})
 	}
 	return g
+}
+
+// funcValueTargets resolves a called function value. Where every origin of the value is visible — a closure or
+// function made in this function, or the result of a call into a library (context.WithTimeout's cancel; functions
+// passed INTO a library are handled by the callback rule at the passing site) — the answer is exact; otherwise all
+// address-taken repository functions of the same signature.
+func (g *callGraph) funcValueTargets(v ssa.Value) []*ssa.Function {
+	var out []*ssa.Function
+	exact := true
+	seen := map[ssa.Value]bool{}
+	var walk func(x ssa.Value)
+	walk = func(x ssa.Value) {
+		if seen[x] || !exact {
+			return
+		}
+		seen[x] = true
+		switch y := x.(type) {
+		case *ssa.Function:
+			out = append(out, unwrap(y))
+		case *ssa.MakeClosure:
+			if fn, ok := y.Fn.(*ssa.Function); ok {
+				out = append(out, unwrap(fn))
+			}
+		case *ssa.Phi:
+			for _, e := range y.Edges {
+				walk(e)
+			}
+		case *ssa.ChangeType:
+			walk(y.X)
+		case *ssa.Extract:
+			walk(y.Tuple)
+		case *ssa.Call:
+			if sc := y.Call.StaticCallee(); sc != nil && !isRepoFn(sc) && sc.Pkg != nil {
+				return // made by a library: not a repository function
+			}
+			exact = false
+		case *ssa.Const:
+			// nil function value: no target
+		default:
+			exact = false
+		}
+	}
+	walk(v)
+	if exact {
+		return out
+	}
+	if s, ok := v.Type().Underlying().(*types.Signature); ok {
+		return g.bySig[sigKey(s)]
+	}
+	return nil
 }
 
 // unwrap maps $bound/$thunk wrappers to the declared method.
